@@ -52,6 +52,21 @@ let () =
              if st = PAbort then print_endline "abort - -"
              else print_endline (s ^ " " ^ hex_or_dash (hex_of_zlist o0) ^ " " ^ hex_or_dash (hex_of_zlist o1))
            | e -> print_endline (err_name e))
+      | ["TF"; fh; dh; h] ->
+        (* the complete tool model: options, Fields + Murmur keys, seen-set, writer *)
+        let d = match zlist_of_hex dh with [x] -> x | _ -> z_of_int 9 in
+        (match dedupe_tool_real (zlist_of_hex (undash fh)) d (zlist_of_hex (undash h)) with
+         | ToolOk out -> print_endline ("OK " ^ hex_or_dash (hex_of_zlist out))
+         | ToolBadOptions -> print_endline "BADOPT"
+         | ToolKeyError -> print_endline "KEYERR"
+         | ToolSetError -> print_endline "SETERR")
+      | ["PF"; fh; dh; h0; h1] ->
+        let d = match zlist_of_hex dh with [x] -> x | _ -> z_of_int 9 in
+        (match dedupe_par_tool_real (zlist_of_hex (undash fh)) d (zlist_of_hex (undash h0)) (zlist_of_hex (undash h1)) with
+         | Some ((st, o0), o1) ->
+           if st = PAbort then print_endline "abort - -"
+           else print_endline ((match st with PDone -> "0" | PUnbalanced -> "2" | PAbort -> "abort") ^ " " ^ hex_or_dash (hex_of_zlist o0) ^ " " ^ hex_or_dash (hex_of_zlist o1))
+         | None -> print_endline "ERR")
       | "D" :: ks ->
         let keys = List.map n_of_string ks in
         let idx = List.mapi (fun i k -> (i, k)) keys in
